@@ -21,9 +21,9 @@ func init() {
 			"(3) NewEngineFacade reaches NewDefaultConfig only on the errors.Is(err, ErrManifestNotFound) edge and LoadConfigFromManifest returns that sentinel only under os.IsNotExist; any other load error is returned; " +
 			"(4) every Config field is exported, uniquely JSON-named, without '-'/omitempty/string options, of a type encoding/json round-trips exactly, and no custom (un)marshaller exists; " +
 			"(5) the rejection conditions extracted from the validator cover the frozen table of documented constraints (missing or weakened constraint = violation); " +
-			"(6) SaveManifest does not re-lock its own mutex (no recursive RLock).",
+			"(6) SaveManifest does not re-lock its own mutex (no recursive RLock); (7) destructive file operations are exactly the classified sites and nothing is written or removed before the manifest is loaded.",
 		NotDecided: "every assignment around the boundaries (value-level), floating-point formatting corner cases, crash during save (needs fault injection), fields that have no documented constraint.",
-		Rules:      []func(*Ctx, *Reporter){ruleC20Save, ruleC20Load, ruleC20Default, ruleC20Types, ruleC20Constraints, ruleC20Reentrancy},
+		Rules:      []func(*Ctx, *Reporter){ruleC20Save, ruleC20Load, ruleC20Default, ruleC20Types, ruleC20Constraints, ruleC20Reentrancy, ruleDestructiveOps},
 	})
 }
 
@@ -269,6 +269,16 @@ func ruleC20Default(c *Ctx, r *Reporter) {
 	if loadCall == nil {
 		r.Bad("engine.NewEngineFacade:load", c.FnPos(open), "opening a database no longer loads the stored configuration (LoadConfigFromManifest not called)")
 		return
+	}
+	// nothing touches the stored manifest before it is loaded: no file-system write other than MkdirAll precedes the load
+	pre, _ := Reach(open, nil, func(i ssa.Instruction) bool {
+		call, ok := i.(*ssa.Call)
+		return ok && fsWriteFns[staticName(call)] && staticName(call) != "os.MkdirAll"
+	}, func(i ssa.Instruction) bool { return i == ssa.Instruction(loadCall) })
+	if pre != nil {
+		r.Bad("engine.NewEngineFacade:manifest-untouched-before-load", c.InsPos(pre), "a file is removed/renamed/written before the stored configuration is loaded: a damaged manifest could be discarded and silently replaced by defaults")
+	} else {
+		r.OK("engine.NewEngineFacade:manifest-untouched-before-load", c.InsPos(loadCall), "no file-system write (other than creating the directory) precedes the load")
 	}
 	isLoadErr := func(v ssa.Value) bool {
 		ex, ok := stripConv(v).(*ssa.Extract)
